@@ -122,28 +122,54 @@ Theorem replace_records_frame :
        (existsb (fun r => mem_id A rid r old) l = false /\ replace_records A rid l old new = l /\ pre ++ post = l)).
 Proof. exact replace_records_split. Qed.
 
-(* replace_all: the records of all other kinds are kept, unchanged and in order, and the new records form one block. *)
+(* replace_all (both branches): the records of every other kind are unchanged and in order, and the records of kind n
+   are exactly the new ones, in order.  (`new` consists of records of kind n — what every caller passes.) *)
 Theorem replace_all_frame :
   forall (A : Type) (rname : A -> text) (order : list text) (l : list A) (n : text) (new res : list A),
+    forallb (name_is A rname n) new = true ->
+    replace_all A rname order l n new = Some res ->
+    filter (other A rname n) res = filter (other A rname n) l /\ filter (name_is A rname n) res = new.
+Proof. exact replace_all_frame_lemma. Qed.
+
+(* when the number of records of kind n does not change, no record of another kind changes its POSITION
+   (repaired C03-REPLACE-ALL-REGROUP, commit 19afc56) ... *)
+Theorem replace_all_in_place :
+  forall (A : Type) (rname : A -> text) (order : list text) (l : list A) (n : text) (new : list A),
+    length new = length (filter (name_is A rname n) l) -> forallb (name_is A rname n) new = true ->
+    exists res, replace_all A rname order l n new = Some res /\ map (slot A rname n) res = map (slot A rname n) l.
+Proof. exact replace_all_in_place_lemma. Qed.
+
+(* ... otherwise the new records form one block at the place of the first old one (or by the default order). *)
+Theorem replace_all_regroups_only_on_count_change :
+  forall (A : Type) (rname : A -> text) (order : list text) (l : list A) (n : text) (new res : list A),
+    Nat.eqb (length new) (length (filter (name_is A rname n) l)) = false ->
     replace_all A rname order l n new = Some res ->
     exists pre post, res = pre ++ new ++ post /\ pre ++ post = filter (other A rname n) l.
 Proof. exact replace_all_split. Qed.
 
-(* Regenerating nothing changes nothing — provided the records of that kind are contiguous (guard; see Refuted). *)
+(* Regenerating nothing changes nothing — for every record list (the `contiguous` guard is gone). *)
 Theorem replace_all_self :
   forall (A : Type) (rname : A -> text) (order : list text) (n : text) (l : list A),
-    contiguous A rname n l = true -> index_of n order <> None ->
     replace_all A rname order l n (filter (name_is A rname n) l) = Some l.
-Proof. exact replace_all_self_contiguous. Qed.
+Proof. exact replace_all_self_lemma. Qed.
 
-(* update_abbr_record is the identity when all $ABBREVIATED records are kept (guard; see Refuted), are contiguous
-   and no eta needs a new one. *)
+(* update_abbr_record is the identity when it keeps all $ABBREVIATED records and needs no new one ... *)
 Theorem update_abbr_identity :
   forall (A : Type) (rname : A -> text) (order : list text) (s_abbr : text) (l : list A) (keep : A -> bool),
-    contiguous A rname s_abbr l = true -> index_of s_abbr order <> None ->
     filter keep (get_records A rname l s_abbr 0) = filter (name_is A rname s_abbr) l ->
     update_abbr A rname order s_abbr l keep [] = Some l.
 Proof. exact update_abbr_identity_lemma. Qed.
+
+(* ... and with the keep decision of the repaired code (62f6c0f): if scanning the records against the eta names the
+   model needs keeps every record and leaves no eta without a record — the situation of an unmodified model, REPLACE
+   records or not — the control stream is returned unchanged. *)
+Theorem update_abbr_record_unmodified :
+  forall (A : Type) (rname : A -> text) (order : list text) (s_abbr : text) (rmap : A -> list (text * text))
+         (l : list A) (rv : list (text * text)) (mk : text * text -> A),
+    get_records A rname l s_abbr 0 = filter (name_is A rname s_abbr) l ->
+    abbr_scan A rmap (filter (name_is A rname s_abbr) l) rv = (filter (name_is A rname s_abbr) l, []) ->
+    update_abbr_record A rname order s_abbr rmap l rv mk = Some l.
+Proof. exact update_abbr_record_unmodified_lemma. Qed.
 
 (* ---- 6. CodeRecord.update_statements -------------------------------------------------------------- *)
 
@@ -186,5 +212,25 @@ Proof. intros nth ncomp cs H. destruct (sizes_insertion_lemma _ _ _ _ H) as [H1 
 (* update_sizes leaves the record list alone when no option is needed. *)
 Theorem update_sizes_identity :
   forall (A : Type) (rname : A -> text) (rid : A -> positive) (order : list text) (l : list A) (new : A),
-    update_sizes_records A rname rid order l false new = l.
+    update_sizes_records A rname rid order l false new = Some l.
 Proof. exact update_sizes_not_needed. Qed.
+
+(* A model that already has the $SIZES record it needs (anywhere, in particular before $PROBLEM) keeps its text
+   (repaired C03-SIZES-APPEND, commit a3ce367). *)
+Theorem update_sizes_same_text :
+  forall (A : Type) (rname : A -> text) (rid : A -> positive) (order : list text) (rstr : A -> text)
+         (l : list A) (r0 : A) (tl : list A) (new : A) (needed : bool),
+    NoDup (map rid l) ->
+    filter (name_is A rname s_SIZES) l = r0 :: tl -> rstr new = rstr r0 ->
+    exists l', update_sizes_records A rname rid order l needed new = Some l' /\ flat_map rstr l' = flat_map rstr l.
+Proof. exact Proofs3.update_sizes_same_text. Qed.
+
+(* A $SIZES record that has to be created goes directly before the first $PROBLEM: nothing else moves and the parser's
+   SIZES-before-PROBLEM rule still holds for the result. *)
+Theorem update_sizes_insert_before_problem :
+  forall (A : Type) (rname : A -> text) (rid : A -> positive) (order : list text) (l : list A) (new : A) (l' : list A),
+    filter (name_is A rname s_SIZES) l = [] -> name_is A rname s_PROBLEM new = false ->
+    update_sizes_records A rname rid order l true new = Some l' ->
+    sizes_rule A rname false l = true ->
+    sizes_rule A rname false l' = true /\ exists pre post, l = pre ++ post /\ l' = pre ++ new :: post.
+Proof. exact update_sizes_insert_keeps_rule. Qed.
